@@ -133,7 +133,10 @@ func analyseBuilder(p *Program, fn *ssa.Function) builderFacts {
 	bf.N = at.Len()
 	e := NewEngine(p)
 	e.GenericLoops = true
-	e.Opaque = func(f *ssa.Function) bool { return true } // quantisers stay symbolic
+	// quantisers stay symbolic; helper functions the builder delegates to are followed
+	e.Opaque = func(f *ssa.Function) bool {
+		return f.Pkg != nil && f.Pkg.Pkg.Path() == ModPath+"/linear" && strings.HasPrefix(f.Name(), "NormalisedTo")
+	}
 	outs := e.Run(fn, []Val{&Opaque{Key: "curve", Type: fn.Params[0].Type()}}, nil)
 	if len(outs) != 1 || outs[0].Kind != "return" {
 		why := fmt.Sprintf("%d paths", len(outs))
